@@ -80,7 +80,17 @@ def _execute(sc, flavour: str, delivery: t.Optional[dict], seed: int = 0):
     ap = "negotiate" if auth else None
 
     def sync_work():
-        with rpc.create_rpc_connection("dc", 135, auth_protocol=ap) as c:
+        if flavour == "sync-timeout":
+            # a caller-supplied socket that keeps a timeout (SyncRpcClient accepts any connected socket)
+            import socket as _s
+
+            from dpapi_ng._rpc._auth import AuthenticationProvider
+
+            sock = _s.create_connection(("dc", 135), timeout=5)
+            c = rpc.SyncRpcClient(sock, AuthenticationProvider(None, None, "dc", ap) if ap else None)
+        else:
+            c = rpc.create_rpc_connection("dc", 135, auth_protocol=ap)
+        with c:
             ack = c.bind(ctxs)
             if kind in ("bind", "alter"):
                 return ack
@@ -95,7 +105,7 @@ def _execute(sc, flavour: str, delivery: t.Optional[dict], seed: int = 0):
             return await c.request(0, 1, b"\x01\x02\x03\x04")
 
     with world.installed(ctx_factory=drive.stub_ctx_factory(cfg, record) if auth else None):
-        if flavour == "sync":
+        if flavour.startswith("sync"):
             out = drive.classify(sync_work)
         else:
             out = drive.classify(lambda: drive.run_async(world, async_work))
@@ -172,9 +182,17 @@ class C14(common.Check):
         out = []
         lim3 = 96 if tier == "quick" else 256
         for si, sc in enumerate(SCENARIOS):
-            for fl in ("sync", "async"):
+            for fl in ("sync", "async", "sync-timeout"):
                 _o, target = baseline(si, fl)
                 n = len(target)
+                if fl == "sync-timeout":
+                    # the same client over a caller-supplied socket with a timeout: single cuts and stream ends only
+                    for a in range(1, n, 1 if n < 200 else 9):
+                        out.append([si, fl, "cuts", a, 0])
+                    for k in list(range(0, min(n, 40))) + list(range(40, n, 13)):
+                        out.append([si, fl, "eof", k, 0])
+                    out.append([si, fl, "stall", min(17, n - 1), 0])
+                    continue
                 # all single cuts
                 for a in range(1, n):
                     out.append([si, fl, "cuts", a, 0])
